@@ -85,8 +85,22 @@ def run_one(args):
     idx, site, w = args
     wt, hz = setup_worker(w)
     subprocess.run(["git", "-C", wt, "checkout", "--", "."], stdout=subprocess.DEVNULL)
-    old, new = apply_site(wt, site)
-    res = {"idx": idx, "file": site[0], "line": site[1] + 1, "old": old, "new": new}
+    if isinstance(site, dict):
+        # re-check of a recorded mutant (usage: tools/mutate.py --recheck work/mutation_<seed>.json [workers]): the line is
+        # replaced by its recorded mutated text
+        p = os.path.join(wt, site["file"])
+        lines = open(p, encoding="utf-8").read().split("\n")
+        cur = lines[site["line"] - 1]
+        old, new = site["old"], site["new"]
+        if cur.strip() == old:
+            lines[site["line"] - 1] = cur[:len(cur) - len(cur.lstrip())] + new
+            open(p, "w", encoding="utf-8").write("\n".join(lines))
+        else:
+            new = old
+        res = {"idx": idx, "file": site["file"], "line": site["line"], "old": old, "new": new}
+    else:
+        old, new = apply_site(wt, site)
+        res = {"idx": idx, "file": site[0], "line": site[1] + 1, "old": old, "new": new}
     if old == new:
         res["status"] = "invalid"
         return res
@@ -130,7 +144,33 @@ def run_one(args):
     return res
 
 
+def recheck():
+    prev = json.load(open(sys.argv[2]))
+    workers = int(sys.argv[3]) if len(sys.argv) > 3 else 4
+    os.makedirs(SCR, exist_ok=True)
+    only = set(os.environ.get("MUT_ONLY", "").split(",")) - {""}   # optional: source line numbers to re-check
+    todo = [r for r in prev["results"] if r["status"] == "survived" and (not only or str(r["line"]) in only)]
+    jobs = [(r["idx"], r, i % workers) for i, r in enumerate(todo)]
+    with Pool(workers) as pool:
+        parts = pool.map(run_part, [[j for j in jobs if j[2] == w] for w in range(workers)])
+    for r in sorted([r for part in parts for r in part], key=lambda r: r["idx"]):
+        print("%s %s:%d  %s  ->  %s  %s" % (r["status"].upper(), r["file"], r["line"], r["old"], r["new"], r.get("detected_by", "")))
+        for q in prev["results"]:
+            if q["idx"] == r["idx"] and r["status"] == "detected":
+                q["status"], q["detected_by"], q["detected_after_strengthening"] = "detected", r["detected_by"], True
+    prev["summary"] = {}
+    for q in prev["results"]:
+        prev["summary"][q["status"]] = prev["summary"].get(q["status"], 0) + 1
+    json.dump(prev, open(sys.argv[2], "w"), indent=1, ensure_ascii=False)
+    print(json.dumps(prev["summary"]))
+    for w in range(workers):
+        subprocess.run(["git", "-C", "/repo", "worktree", "remove", "--force", "%s/wt%d" % (SCR, w)], stdout=subprocess.DEVNULL, stderr=subprocess.DEVNULL)
+    shutil.rmtree(SCR, ignore_errors=True)
+
+
 def main():
+    if sys.argv[1] == "--recheck":
+        return recheck()
     n, seed = int(sys.argv[1]), int(sys.argv[2])
     workers = int(sys.argv[3]) if len(sys.argv) > 3 else 6
     os.makedirs(SCR, exist_ok=True)
